@@ -53,4 +53,10 @@ inductive SentinelRepl
   | projectDir    -- `self.directory`: the directory of the project file
   deriving DecidableEq, Repr
 
+/-- Which directory an attempt of `load_settings` to find the manifest (`load_toml_settings(<dir>)`) looks in. -/
+inductive LookupDir
+  | projectDir   -- the directory of the project file (`os.path.dirname` of the path given on the command line)
+  | cwd          -- the working directory FORD was started in
+  deriving DecidableEq, Repr
+
 end Ford
